@@ -37,14 +37,15 @@ CHECKS = {
          "datasets with missing single cells, whole missing time/location slices and whole missing fields together with the expected score "
          "of 49 metrics x 4 axes x every slice and input; each dataset is materialised once per missing-value encoding of its format "
          "(text: -999, -999.0, nan, non-numeric; NetCDF: NaN, _FillValue, masked, -999, >1e30; Decode/DecodeNc in TextFormat/NcFormat.tla) "
-         "and every score recomputed by Metric.compute (a number where the spec says undefined, or any exception, is a violation).",
+         "and every score recomputed by Metric.compute (a number where the spec says undefined, or any exception, is a violation); "
+         "obs / fcst / mae also under the sum and max aggregators, -T windows with a missing value (family C15T), ensemble members and probabilistic fields with missing values.",
     technique="TLA+ specs (Scoring.tla = Dataset.tla + Metrics.tla) evaluated by TLC; expected score matrices replayed through files in every missing-value encoding into verif.data + verif.metric",
     ref="6/C04"),
  "C11": dict(
     text="Calendar.tla is an integer proleptic-Gregorian calendar; TLC checks bucket-containment, monotonicity and inverse-conversion "
          "lemmas on every day 1900-2100 (thorough) and emits each day's facts, replayed into verif.util conversions and all time-like "
          "axes; Dataset.tla SliceKey/SliceOf with the Partition invariant gives the slices of datasets whose initialisation times "
-         "straddle year/month/week/leap-day boundaries, replayed through Data.get_axis_values and get_scores for 15 axes.",
+         "straddle year/month/week/leap-day boundaries (and lead times before the initialisation time), replayed through Data.get_axis_values and get_scores for 15 axes.",
     technique="TLA+ specs (Calendar.tla, Dataset.tla) model-checked with TLC; per-day facts and per-slice cases replayed into verif.util/axis/data",
     ref="6/C11"),
  "C12": dict(
@@ -52,7 +53,8 @@ CHECKS = {
          "descriptor that identifies the slice (calendar components, lead time, location id/lat/lon/elev, threshold), one score column "
          "per input in command-line order, -acc as running sums and the -x threshold table; TLC checks the shape lemmas on every "
          "(dataset, metric, axis) case; each is run through verif.driver.run with -type text and csv, with/without -f, -leg, -acc, and "
-         "the printed table (warnings stripped) is parsed and compared to the format's precision (6 / 4 significant digits).",
+         "the printed table (warnings stripped) is parsed and compared to the format's precision (6 / 4 significant digits); "
+         "the table of the obs/fcst diagram with quantile lines (one column per series, named after its input) comes from Diagrams.tla.",
     technique="TLA+ spec (Report.tla over Scoring.tla) evaluated by TLC; expected tables compared with the parsed output of verif.driver.run -type text|csv",
     ref="6/C12"),
  "C13": dict(
@@ -68,7 +70,8 @@ CHECKS = {
  "C14": dict(
     text="Dataset.tla Adj subtracts/divides the climatology forecast at the same coordinates (exact rationals; zero divisors give "
          "non-finite, hence dropped, cases); TLC enumerates climatologies with their own coverage, order, missing cells and zeros, "
-         "checks the shift-equivalence theorem (-c X versus X as extra input) and emits expected results replayed into Data(clim=...).",
+         "checks the shift-equivalence theorem (-c X versus X as extra input) and emits expected results replayed into Data(clim=...); "
+         "through the driver: legend / table columns never name the climatology, and the operation applied is the one given with the file that is used.",
     technique="TLA+ spec (Dataset.tla Adj) model-checked with TLC; generated datasets replayed into verif.data.Data with clim",
     ref="6/C14"),
  "C07": dict(
@@ -76,7 +79,7 @@ CHECKS = {
          "event probability from the CDF); TLC checks the partition / complement / NaN / agreement lemmas on the complete set of order "
          "relations of a value to 1-3 thresholds (below, equal, between, equal, above, NaN, -inf, +inf) and every case is replayed into "
          "Interval.within (scalar, array), util.get_intervals, util.apply_threshold and util.apply_threshold_prob; exhaustive for the "
-         "property's own quantifier. The thorough tier adds an Apalache (SMT) proof of the order lemmas over unbounded integers.",
+         "property's own quantifier; event probabilities derived from ensemble members (a member on the threshold) come from MC_Prob. The thorough tier adds an Apalache (SMT) proof of the order lemmas over unbounded integers.",
     technique="TLA+ spec (Events.tla) model-checked with TLC (+ Apalache over unbounded Int); every enumerated placement replayed into verif.interval / verif.util",
     ref="6/C07"),
  "C08": dict(
@@ -143,7 +146,7 @@ CHECKS = {
  "C17": dict(
     text="Figure.tla gives every documented appearance option one owned figure property (with the value it must read for each of two "
          "argument values), the few properties it may legitimately disturb, and the Independent lemma; TLC enumerates every consistent "
-         "set of up to 2 options on a standard plot and single options on pithist / reliability / obsfcst / the map view (-clabel, -clim, -cmap); "
+         "set of up to 2 options on a standard plot and single options on pithist / reliability / obsfcst / the map view (-clabel, -clim, -cmap) / a plot whose values all lie on one side of the perfect score (-sp must bring the line into the picture); "
          "a derived property says whether the image is the whole figure or cropped (explicit margins, 0 included); the matplotlib figure "
          "left by verif.driver.run and the written image are projected into the abstract properties: owned ones must carry the option's "
          "value, all properties no given option controls must equal the option-free baseline figure; image formats by extension.",
@@ -171,7 +174,8 @@ CHECKS = {
     text="Scripts.tla specifies accumulate (trailing sums by steps, incomplete windows missing, -i, cumulative without -w; lemma "
          "Accumulate = PreAgg(sum) on unit grids, tying it to C15), ens2prob (cdf between the strict and non-strict member fractions, "
          "hence in [0,1] and monotone; quantiles within the member range and non-decreasing; PIT = fraction of members below the "
-         "observation, missing where it is missing) and expandverif (valid-time matching with a soundness lemma); TLC enumerates inputs "
+         "observation, missing where it is missing) and expandverif (valid-time matching with a soundness lemma, lead times in hours or half hours) and window (from every lead time on, how long the "
+         "accumulated amount stays in the event; lemmas: a spell of consecutive lead times for non-negative amounts, never negative, never beyond the series); TLC enumerates inputs "
          "with missing values x all options from small menus and each case is run through the real script's main() on a text or NetCDF "
          "input, the written file being read back with netCDF4 directly.",
     technique="TLA+ spec (Scripts.tla, Aggregators.tla) model-checked with TLC; enumerated inputs/options run through the scripts and their output files compared with the spec",
